@@ -250,7 +250,10 @@ def run_coq_cases(prop, preamble, cases, chunk=400, tag="cases"):
         with open(path, "w") as f:
             f.write(preamble + "\n")
             f.write("Set Printing Width 100000.\nSet Printing Depth 1000000.\n")
-            f.write("Definition the_cases := [\n")
+            # the element type is taken from check_case, so that a chunk whose cases are all `None` (or `[]`) at
+            # some position still type-checks
+            f.write("Definition case_T : Type := ltac:(match type of check_case with ?T -> _ => exact T end).\n")
+            f.write("Definition the_cases : list (N * case_T) := [\n")
             f.write(";\n".join("(%d%%N, %s)" % (cid, term) for cid, term in part))
             f.write("].\n")
             f.write("Definition bad := List.filter (fun c => negb (check_case (snd c))) the_cases.\n")
@@ -293,7 +296,8 @@ def run_coq_stats(prop, preamble, cases, chunk=100, tag="stats"):
         with open(path, "w") as f:
             f.write(preamble + "\n")
             f.write("Set Printing Width 100000.\nSet Printing Depth 1000000.\n")
-            f.write("Definition the_cases := [\n")
+            f.write("Definition case_T : Type := ltac:(match type of stat_case with ?T -> _ => exact T end).\n")
+            f.write("Definition the_cases : list (N * case_T) := [\n")
             f.write(";\n".join("(%d%%N, %s)" % (cid, term) for cid, term in part))
             f.write("].\n")
             f.write("Eval vm_compute in List.map (fun c => (fst c, stat_case (snd c))) the_cases.\n")
